@@ -349,14 +349,23 @@ fn gen(rng: &mut Rng, tier: Tier) -> Vec<Case> {
         for (ci, cfg) in CFGS.iter().enumerate() {
             // object-stream configurations produce a 10^6-entry cross-reference section
             // (object stream ids start at 1 000 000): 6-20 MB files, keep them few
-            let heavy = cfg.starts_with("o:") || *cfg == "xo:n:1.5";
-            let medium = *cfg == "xo:z:1.5";
-            let every = match tier {
-                Tier::Quick => if heavy { 30 } else if medium { 6 } else { 1 },
-                Tier::Thorough => if heavy { 150 } else if medium { 10 } else { 1 },
-            };
-            if d % every != (ci % every.min(7)) % every {
-                continue;
+            let heavy = cfg.starts_with("o:") || cfg.starts_with("xo:");
+            if heavy {
+                // a handful of fixed document indices per heavy configuration
+                let want: &[usize] = match (*cfg, tier) {
+                    ("xo:z:1.5", Tier::Quick) => &[7],
+                    ("xo:z:1.5", Tier::Thorough) => &[1, 7, 20, 33, 50, 77, 100, 140, 201, 333, 500, 700, 900, 1100, 1300],
+                    ("xo:n:1.5", Tier::Quick) => &[2],
+                    ("xo:n:1.5", Tier::Thorough) => &[2, 40, 400],
+                    ("o:z:1.5", Tier::Quick) => &[],
+                    ("o:z:1.5", Tier::Thorough) => &[4, 60, 600],
+                    ("o:n:1.7", Tier::Quick) => &[],
+                    ("o:n:1.7", Tier::Thorough) => &[5, 70],
+                    _ => &[],
+                };
+                if !want.contains(&d) {
+                    continue;
+                }
             }
             if ci >= 8 && d % 4 != 0 {
                 continue;
@@ -382,7 +391,9 @@ fn gen(rng: &mut Rng, tier: Tier) -> Vec<Case> {
                 v.min(max)
             };
             es.push(match rng.below(3) {
-                0 => format!("f{}:{}", pickv(rng, u32::MAX as u64), pickv(rng, 65535)),
+                // `add_free_entry` never widens /W (see C03-F4): keep `next` below 2^24 here,
+                // larger values only in the dedicated requests below
+                0 => format!("f{}:{}", pickv(rng, 16777215), pickv(rng, 65535)),
                 1 => format!("n{}:{}", pickv(rng, u64::MAX >> 1), pickv(rng, 65535)),
                 _ => format!("c{}:{}", pickv(rng, u32::MAX as u64), pickv(rng, u32::MAX as u64)),
             });
@@ -390,6 +401,10 @@ fn gen(rng: &mut Rng, tier: Tier) -> Vec<Case> {
         cases.push(Case::new(format!("xrefenc {}", es.join(",")), "xrefenc nt"));
     }
     cases.push(Case::new("xrefenc -", "xrefenc"));
+    for v in [16777216u64, 16777217, 4294967295] {
+        cases.push(Case::new(format!("xrefenc f{}:0", v), "xrefenc free-wide nt"));
+        cases.push(Case::new(format!("xrefenc f{}:7,n{}:0", v, 1 + rng.below(1000)), "xrefenc free-wide nt"));
+    }
     // ---- function level: object stream packing
     for k in 0..nfn / 2 {
         let n = if k % 25 == 0 { 100 + rng.below(3) } else { 1 + rng.below(8) };
